@@ -1,4 +1,5 @@
 import DW.Syntactic2
+import DW.Stage1
 import DW.Render
 import DW.Props.C03
 import DW.Props.C04
